@@ -17,7 +17,7 @@ RULE = ("the same (input, options) is evaluated in 4 long-lived tool processes s
         "(many memory operations, diamond-shaped term DAGs, loads kept in the stack across an aliasing store that stores a value "
         "built from them, several unused hashes / loads between stores), contracts of generated blocks, shipped examples (thorough); compared "
         "field by field: specification JSON (identifiers included), sub-block list, greedy id list, the emitted .smt2 text of the "
-        "Max-SMT problem, and for contracts the emitted file, log and statistics (minus timings); Max-SMT *results* are excluded "
+        "Max-SMT problem under encoder options drawn per case (term / memory encoding, bounds and pruning flags), and for contracts the emitted file, log and statistics (minus timings); Max-SMT *results* are excluded "
         "(solvers are documented as non-deterministic); non-trivial = specification with >= 3 dependence pairs or >= 2 maximal "
         "elements in its dependency graph, or a contract; distinct by (input, options)")
 ASSUME = ["string-hash randomisation is the only process-level source of nondeterminism that can be varied from outside; machine "
@@ -62,7 +62,9 @@ def observe(job):
                 d["greedy"][name] = ["raised", type(e).__name__]
             if job.get("smt") and len(S["user_instrs"]) <= 12 and S["init_progr_len"] <= 14:
                 try:
-                    bo = BlockOptimizer(name, copy.deepcopy(S), params, 2)
+                    # the text of the Max-SMT problem under the encoder options drawn for this job
+                    p_smt = hermetic.make_params(["in.json"] + [a for a in argv if a != "-greedy"] + ["-solver", "z3"] + list(job.get("enc") or []))
+                    bo = BlockOptimizer(name, copy.deepcopy(S), p_smt, 2)
                     bo.generate_intermediate_files()
                     d["smt2"][name] = open(bo._encoding_file).read()
                 except BaseException as e:  # noqa
@@ -155,10 +157,10 @@ def group_run(n, sd, shipped):
                   suppress_health_check=list(HealthCheck), report_multiple_bugs=False)
         @given(st.one_of(gen.body(min_len=8, max_len=30, profile=DEP_PROFILE, allow_split=False), gen.body(min_len=8, max_len=30, profile=DEP_PROFILE), gen.body(max_len=16), gen.corpus_block(), gen.kept_loads_block(), gen.two_store_block(), gen.unused_hashes_block()),
                st.builds(lambda a, b, c: a + b + c + ["-greedy"], st.sampled_from(options.SPLIT), st.sampled_from(options.RULES), st.sampled_from(options.CRIT)),
-               st.lists(gen.block(max_len=12, profile=gen.MEM_PROFILE), min_size=2, max_size=4), st.integers(0, 9))
-        def prop(instrs, argv, blocks, k):
-            job = {"type": "block", "items": asm.instrs_to_items(instrs), "argv": argv, "smt": k < 5}
-            case = {"type": "block", "blocks": [asm.instrs_to_plain(instrs)], "argv": argv}
+               st.lists(gen.block(max_len=12, profile=gen.MEM_PROFILE), min_size=2, max_size=4), st.integers(0, 9), options.encoder_options())
+        def prop(instrs, argv, blocks, k, enc):
+            job = {"type": "block", "items": asm.instrs_to_items(instrs), "argv": argv, "smt": k < 5, "enc": enc}
+            case = {"type": "block", "blocks": [asm.instrs_to_plain(instrs)], "argv": argv, "enc": enc}
             for f in compare(job, servers, stats, case):
                 stats.fail(f)
             if k == 0:
@@ -185,7 +187,8 @@ def replay_case(case, stats=None):
     servers = [Server(h) for h in HASHSEEDS]
     try:
         if case["type"] == "block":
-            job = {"type": "block", "items": asm.instrs_to_items(asm.parse_plain(case["blocks"][0])), "argv": case["argv"], "smt": True}
+            job = {"type": "block", "items": asm.instrs_to_items(asm.parse_plain(case["blocks"][0])), "argv": case["argv"], "smt": True,
+                   "enc": case.get("enc")}
         elif case["type"] == "doc":
             doc = docs.make_document([[("STOP", None)]], [asm.parse_plain(t) for t in case["blocks"]])
             job = {"type": "doc", "doc": json.dumps(doc), "argv": case["argv"]}
